@@ -118,6 +118,7 @@ package executors
 //@   ensures ctRemoveAlls == old(ctRemoveAlls) + 1 && wg(pe.waitGroup) == old(wg(pe.waitGroup))
 //@   ensures implies(result, ctExecutes == old(ctExecutes) + 1 && ctExecArg == ctBatch) && implies(!result, ctExecutes == old(ctExecutes))
 //@   call executeTasks#0: assert arg_tasks == ctBatch
+//@   call RemoveAll#0: assert wg(pe.waitGroup) == old(wg(pe.waitGroup)) + 1
 //@   modifies wg(pe.waitGroup), ctExecutes, ctExecArg, ctRemoveAlls, ctBatch
 
 // Wait: flushes what is buffered and then, on EVERY path, waits for the wait group (batches taken by the background flusher
